@@ -227,6 +227,9 @@ pub struct Repo {
     current_tags: Vec<Tag>,
     /// SHA-256 object format (64-digit object names)
     pub sha256: bool,
+    /// how many tag objects stand between an annotated tag's ref and its commit (1 = ordinary annotated tag, 2+ = a tag of a
+    /// tag, as `git tag -a v2 <annotated tag>` makes); applies to the tags written from now on
+    pub nest_depth: usize,
 }
 
 pub fn scratch_root() -> PathBuf {
@@ -271,7 +274,7 @@ impl Repo {
         }
         if shas.iter().any(|s| s.is_empty()) { machinery_error("fast-import marks incomplete"); }
         git(&dir, &["update-ref", "-d", "refs/heads/zztmp"], None);
-        let r = Repo { dir, shas, dates: dates.to_vec(), tag_objects: HashMap::new(), current_tags: vec![], sha256 };
+        let r = Repo { dir, shas, dates: dates.to_vec(), tag_objects: HashMap::new(), current_tags: vec![], sha256, nest_depth: 1 };
         r.conform_dag(shape);
         r
     }
@@ -308,7 +311,12 @@ impl Repo {
                 if !self.tag_objects.contains_key(&key) {
                     // tagger date deliberately differs from the commit date (40 days later: another day, month and often year)
                     let body = format!("object {}\ntype commit\ntag {}\ntagger v <v@v> {} +0000\n\nannotated\n", self.shas[t.target], t.name, self.dates[t.target] + 3_456_777);
-                    let id = git(&self.dir, &["hash-object", "-t", "tag", "-w", "--stdin"], Some(body.as_bytes())).trim().to_string();
+                    let mut id = git(&self.dir, &["hash-object", "-t", "tag", "-w", "--stdin"], Some(body.as_bytes())).trim().to_string();
+                    // nested annotated tag: further tag objects, each pointing at the previous one (inner names are not refs)
+                    for lvl in 1..self.nest_depth {
+                        let body = format!("object {}\ntype tag\ntag {}\ntagger v <v@v> {} +0000\n\nnested {}\n", id, t.name, self.dates[t.target] + 3_456_777 + lvl as i64, lvl);
+                        id = git(&self.dir, &["hash-object", "-t", "tag", "-w", "--stdin"], Some(body.as_bytes())).trim().to_string();
+                    }
                     self.tag_objects.insert(key.clone(), id);
                 }
                 self.tag_objects[&key].clone()
@@ -319,10 +327,20 @@ impl Repo {
         self.current_tags = tags.to_vec();
         // conformance of tags (name -> dereferenced commit, object type)
         let refs = git(&self.dir, &["for-each-ref", "--format=%(refname) %(objecttype) %(objectname) %(*objectname)", "refs/tags"], None);
-        let mut got: Vec<(String, bool, String)> = refs.lines().map(|l| { let p: Vec<&str> = l.split(' ').collect(); let ann = p.get(1) == Some(&"tag"); (p[0].strip_prefix("refs/tags/").unwrap_or(p[0]).to_string(), ann, if ann { p.get(3).unwrap_or(&"").to_string() } else { p.get(2).unwrap_or(&"").to_string() }) }).collect();
+        let mut got: Vec<(String, bool, String)> = refs.lines().map(|l| { let p: Vec<&str> = l.split(' ').collect(); let ann = p.get(1) == Some(&"tag"); let peeled = if ann && self.nest_depth > 1 { git(&self.dir, &["rev-parse", "--verify", "-q", &format!("{}^{{commit}}", p[0])], None).trim().to_string() } else if ann { p.get(3).unwrap_or(&"").to_string() } else { p.get(2).unwrap_or(&"").to_string() }; (p[0].strip_prefix("refs/tags/").unwrap_or(p[0]).to_string(), ann, peeled) }).collect();
         let mut want: Vec<(String, bool, String)> = tags.iter().map(|t| (t.name.clone(), t.annotated, self.shas[t.target].clone())).collect();
         got.sort(); want.sort();
         if got != want { machinery_error(&format!("conformance: tags differ: git {got:?}, model {want:?}")); }
+    }
+
+    /// From now on annotated tags are written with `d` tag objects between ref and commit.
+    pub fn set_nesting(&mut self, d: usize) {
+        if d.max(1) == self.nest_depth { return; }
+        self.nest_depth = d.max(1);
+        self.tag_objects.clear();
+        let script = git(&self.dir, &["for-each-ref", "--format=delete %(refname)", "refs/tags"], None);
+        if !script.trim().is_empty() { git(&self.dir, &["update-ref", "--stdin"], Some(script.as_bytes())); }
+        self.current_tags.clear();
     }
 
     pub fn set_head(&self, head: &Head) {
